@@ -31,12 +31,12 @@ fn inner(i: i128) -> bool {
     i > MIN_INSTANT + 3 * D && i < MAX_INSTANT - 3 * D
 }
 
-enum Step {
+pub enum Step {
     /// (description, family, expected (instant, offset) or None when the model makes no claim)
-    Op(String, Family, Option<(i128, i32)>, Box<dyn FnOnce(&DateTime) -> Option<DateTime>>),
+    Op(String, Family, Option<(i128, i32)>, Box<dyn Fn(&DateTime) -> Option<DateTime>>),
 }
 
-fn gen_step(rng: &mut Rng, i: i128, off: i32) -> Step {
+pub fn gen_step(rng: &mut Rng, i: i128, off: i32) -> Step {
     match rng.below(12) {
         0 | 1 | 2 => {
             let m = rng.below(14) as usize;
